@@ -22,10 +22,10 @@ inductive Err where
   | poolId | partyNotInDistribution | keyInvalid | alreadyRegistered
 deriving DecidableEq, Repr
 
-/-- `KesVerifierStandard::verify`: evolutions `max(0,e-1) ..= min(64,e+1)` -/
+/-- `KesVerifierStandard::verify`: evolutions `max(0,e-1) ..= min(63,e+1)` -/
 def kesWindow (P : Prim) (oc vk sig e : Nat) : Bool :=
   let lo := e - 1
-  let hi := min 64 (e + 1)
+  let hi := min 63 (e + 1)
   (List.range (hi + 1 - lo)).any (fun i => P.kesVerify (lo + i) (P.kesVkOf oc) vk sig)
 
 def register (P : Prim) (sd : Nat → Option Nat) (registered : List Nat) (p : Params) :
@@ -54,7 +54,7 @@ def register (P : Prim) (sd : Nat → Option Nat) (registered : List Nat) (p : P
 
 theorem kesWindow_iff (P : Prim) (oc vk sig e : Nat) :
     kesWindow P oc vk sig e = true ↔
-      ∃ t, e - 1 ≤ t ∧ t ≤ e + 1 ∧ t ≤ 64 ∧ P.kesVerify t (P.kesVkOf oc) vk sig = true := by
+      ∃ t, e - 1 ≤ t ∧ t ≤ e + 1 ∧ t ≤ 63 ∧ P.kesVerify t (P.kesVkOf oc) vk sig = true := by
   unfold kesWindow
   simp only [List.any_eq_true, List.mem_range]
   constructor
@@ -70,7 +70,7 @@ theorem register_iff (P : Prim) (sd : Nat → Option Nat) (registered : List Nat
     register P sd registered p = .ok (pid, st) ↔
       ∃ oc e sig, p.opcert = some oc ∧ p.kesEvolutions = some e ∧ p.kesSig = some sig ∧
         P.opcertOk oc = true ∧
-        (∃ t, e - 1 ≤ t ∧ t ≤ e + 1 ∧ t ≤ 64 ∧ P.kesVerify t (P.kesVkOf oc) p.vk sig = true) ∧
+        (∃ t, e - 1 ≤ t ∧ t ≤ e + 1 ∧ t ≤ 63 ∧ P.kesVerify t (P.kesVkOf oc) p.vk sig = true) ∧
         P.poolIdOf (P.coldOf oc) = some pid ∧ sd pid = some st ∧
         P.popVerify p.vk = true ∧ p.vk ∉ registered := by
   unfold register
